@@ -20,6 +20,8 @@ type Solver struct {
 func solvers(seed int, timeoutS int) []Solver {
 	return []Solver{
 		{"z3-new", []string{"z3-new", "-smt2", fmt.Sprintf("-T:%d", timeoutS), fmt.Sprintf("smt.random_seed=%d", seed), fmt.Sprintf("sat.random_seed=%d", seed)}},
+		{"z3-new/ematch", []string{"z3-new", "-smt2", fmt.Sprintf("-T:%d", timeoutS), fmt.Sprintf("smt.random_seed=%d", seed), "smt.mbqi=false"}},
+		{"z3-new/norelevancy", []string{"z3-new", "-smt2", fmt.Sprintf("-T:%d", timeoutS), fmt.Sprintf("smt.random_seed=%d", seed), "smt.relevancy=0"}},
 		{"cvc5", []string{"cvc5", "--lang=smt2", fmt.Sprintf("--tlimit=%d", timeoutS*1000), fmt.Sprintf("--seed=%d", seed)}},
 		{"z3", []string{"/usr/bin/z3", "-smt2", fmt.Sprintf("-T:%d", timeoutS), fmt.Sprintf("smt.random_seed=%d", seed)}},
 	}
@@ -58,7 +60,15 @@ func runSolver(ctx context.Context, s Solver, file string) solveOut {
 	err := cmd.Run()
 	ms := time.Since(start).Milliseconds()
 	raw := out.String()
-	first := strings.TrimSpace(strings.SplitN(raw, "\n", 2)[0])
+	first := ""
+	for _, ln := range strings.Split(raw, "\n") {
+		ln = strings.TrimSpace(ln)
+		if ln == "" || strings.HasPrefix(ln, "WARNING") || strings.HasPrefix(ln, "(error") && false {
+			continue
+		}
+		first = ln
+		break
+	}
 	switch first {
 	case "unsat", "sat", "unknown":
 		return solveOut{first, s.Name, ms, raw}
@@ -164,7 +174,7 @@ func solveOne(r *FuncResult, o *Obligation, opt solveOpts) {
 	o.Result, o.Backend, o.Ms, o.Detail = res.verdict, res.solver, res.ms, firstLines(res.raw, 6)
 	if opt.confirm && o.Result == "unsat" && o.Expect == "unsat" {
 		for _, s := range solvers(opt.seed, opt.timeoutS) {
-			if s.Name == o.Backend {
+			if strings.SplitN(s.Name, "/", 2)[0] == strings.SplitN(o.Backend, "/", 2)[0] {
 				continue
 			}
 			c := portfolio(file, opt.seed, opt.timeoutS, s.Name)
@@ -194,4 +204,36 @@ func (o *Obligation) ok() bool {
 		return o.Result == "sat" || o.Result == "unknown" || o.Result == "timeout"
 	}
 	return o.Result == "unsat"
+}
+
+// feasible asks a solver whether a path condition is satisfiable with the facts collected so far.
+// Only a definite "unsat" prunes; every other answer keeps the path.
+func (c *Ctx) feasible(reach string) bool {
+	if reach == "false" {
+		return false
+	}
+	if reach == "true" || c.feasChecks > 400 {
+		return true
+	}
+	c.feasChecks++
+	var sb strings.Builder
+	sb.WriteString("(set-logic ALL)\n")
+	for _, l := range c.script {
+		sb.WriteString(l)
+		sb.WriteByte('\n')
+	}
+	sb.WriteString("(assert " + reach + ")\n(check-sat)\n")
+	cmd := exec.Command("z3-new", "-in", "-smt2", "-T:3")
+	cmd.Stdin = strings.NewReader(sb.String())
+	out, _ := cmd.Output()
+	for _, ln := range strings.Split(string(out), "\n") {
+		ln = strings.TrimSpace(ln)
+		if ln == "unsat" {
+			return false
+		}
+		if ln == "sat" || ln == "unknown" || ln == "timeout" {
+			return true
+		}
+	}
+	return true
 }
